@@ -23,6 +23,10 @@ def execute(c):
     o = np.array(ORGS[c["place"]], dtype=np.float64)
     if "far" in c:
         o = o + np.array(FAR[c["far"]], dtype=np.float64)
+    if "rnd" in c:                      # a seeded random orientation and offset
+        rr = np.random.default_rng(c["rnd"])
+        d = rr.normal(size=3); d /= np.linalg.norm(d)
+        o = rr.uniform(-500, 500, size=3)
     rev = c["place"] >= 5
     k, a, b, cc = c["k"], c["a"] * u, c["b"] * u, c["c"] * u
     if k == "sphere":
@@ -69,6 +73,11 @@ def run(ctx):
     ext = [dict(c, unit=3 + k % 2) for k, c in enumerate(cases)][:: (2 if ctx.tier == "quick" else 1)]
     p = ctx.write_cases("extreme-units", ext)
     ctx.run_cases("extreme-units", ext, p, execute, "Judge_VolPrim", keyfn, nontrivial)
+    rnd = [dict(c, rnd=ctx.seed * 100003 + 7 * k + j) for k, c in enumerate(cases) if c["k"] not in ("sphere", "cap") for j in range(1 if ctx.tier == "quick" else 6)]
+    if ctx.tier == "quick":
+        rnd = rnd[::2]
+    p = ctx.write_cases("random-orientations", rnd)
+    ctx.run_cases("random-orientations", rnd, p, execute, "Judge_VolPrim", keyfn, nontrivial)
     far = [dict(c, far=k % 2) for k, c in enumerate(cases) if c["k"] not in ("sphere", "cap")][:: (2 if ctx.tier == "quick" else 1)]
     p = ctx.write_cases("far-from-origin", far)
     ctx.run_cases("far-from-origin", far, p, execute, "Judge_VolPrim", keyfn, nontrivial)
